@@ -59,6 +59,7 @@ type ProcContract struct {
 	Subs       map[string]*ProcContract // "go0", "fn1"
 	Parent     *ProcContract
 	Opts       map[string]string
+	GSets      [][2]string
 	File       string
 	Line       int
 }
@@ -119,6 +120,8 @@ type ContractFile struct {
 	Impls  map[string]*ImplContract
 	Lemmas []*LemmaContract
 	Insts  []*InstanceCheck
+	GhostFields []GhostField
+	Preds  map[string]*PredDef
 	Decls  []string // raw smt declarations (spec functions local to the package)
 }
 
@@ -133,7 +136,7 @@ func ParseContractFile(path string) (*ContractFile, error) {
 	if err != nil {
 		return nil, err
 	}
-	cf := &ContractFile{Path: path, Hash: sha(b), Funcs: map[string]*ProcContract{}, Ifaces: map[string]*IfaceContract{}, Impls: map[string]*ImplContract{}}
+	cf := &ContractFile{Path: path, Hash: sha(b), Funcs: map[string]*ProcContract{}, Ifaces: map[string]*IfaceContract{}, Impls: map[string]*ImplContract{}, Preds: map[string]*PredDef{}}
 	type rawLine struct {
 		text string
 		n    int
@@ -300,6 +303,30 @@ func ParseContractFile(path string) (*ContractFile, error) {
 			}
 			cf.Insts = append(cf.Insts, &InstanceCheck{Name: strings.TrimSpace(nm), Type: strings.TrimSpace(ty), Props: fileProps, Line: n})
 			top, cur, iface, impl = nil, nil, nil, nil
+		case "ghostfield":
+			f := strings.SplitN(rest, " ", 3)
+			if len(f) != 3 {
+				return nil, fmt.Errorf("%s:%d: ghostfield <Type> <name> <gotype>", path, n)
+			}
+			cf.GhostFields = append(cf.GhostFields, GhostField{Owner: f[0], Name: f[1], Type: strings.TrimSpace(f[2])})
+		case "pred":
+			lhs, rhs, ok := strings.Cut(rest, " = ")
+			i := strings.Index(lhs, "(")
+			if !ok || i < 0 {
+				return nil, fmt.Errorf("%s:%d: pred name(params) = expr", path, n)
+			}
+			pd := &PredDef{Name: strings.TrimSpace(lhs[:i])}
+			for _, p := range strings.Split(strings.TrimSuffix(strings.TrimSpace(lhs[i+1:]), ")"), ",") {
+				if strings.TrimSpace(p) != "" {
+					pd.Params = append(pd.Params, strings.TrimSpace(p))
+				}
+			}
+			c, err := clause(strings.TrimSpace(rhs), n)
+			if err != nil {
+				return nil, err
+			}
+			pd.Body = c
+			cf.Preds[pd.Name] = pd
 		case "rawlemma":
 			nm, ex, ok := strings.Cut(rest, ":")
 			if !ok {
@@ -372,6 +399,13 @@ func ParseContractFile(path string) (*ContractFile, error) {
 				default:
 					cur.PanicsWhen = append(cur.PanicsWhen, c)
 				}
+			case "gset":
+				// ghost code of the body: gset name(x) = expr
+				l, r, ok := strings.Cut(rest, " = ")
+				if !ok {
+					return nil, fmt.Errorf("%s:%d: gset lhs = rhs", path, n)
+				}
+				cur.GSets = append(cur.GSets, [2]string{strings.TrimSpace(l), strings.TrimSpace(r)})
 			case "pure":
 				cur.Pure = true
 			case "inline":
@@ -382,7 +416,25 @@ func ParseContractFile(path string) (*ContractFile, error) {
 				k, v, _ := strings.Cut(rest, "=")
 				cur.Opts[strings.TrimSpace(k)] = strings.TrimSpace(v)
 			case "modifies":
-				cur.Modifies = append(cur.Modifies, strings.Fields(strings.ReplaceAll(rest, ",", " "))...)
+				depth, start := 0, 0
+				for i, r := range rest {
+					switch r {
+					case '(', '[':
+						depth++
+					case ')', ']':
+						depth--
+					case ',':
+						if depth == 0 {
+							if t := strings.TrimSpace(rest[start:i]); t != "" {
+								cur.Modifies = append(cur.Modifies, t)
+							}
+							start = i + 1
+						}
+					}
+				}
+				if t := strings.TrimSpace(rest[start:]); t != "" {
+					cur.Modifies = append(cur.Modifies, t)
+				}
 			case "loop":
 				f := strings.SplitN(rest, " ", 3)
 				if len(f) < 3 {
